@@ -183,10 +183,9 @@ CheckResult(v) ==
      ELSE pc' = "raised" /\ out' = [t |-> v, p |-> 0]
   /\ UNCHANGED <<call, todo>>
 
-Next == \/ Bind
-        \/ \E i \in todo, v \in AllOutcomes : CheckParam(i, v)
-        \/ Run
-        \/ \E v \in AllOutcomes : CheckResult(v)
+Check  == \E i \in todo, v \in AllOutcomes : CheckParam(i, v)
+Result == \E v \in AllOutcomes : CheckResult(v)
+Next == Bind \/ Check \/ Run \/ Result
 
 Spec == Init /\ [][Next]_vars
 
